@@ -54,6 +54,7 @@ pub fn inputs(thorough: bool) -> Vec<Vec<u8>> {
 	let mut v: Vec<Vec<u8>> = gen::token_seqs(&gen::alphabet(F::Yaml), if thorough { 4 } else { 3 });
 	let seeds = gen::seeds(F::Yaml);
 	v.extend(seeds.iter().cloned());
+	v.extend(gen::linebreak_variants(F::Yaml));
 	for s in &seeds {
 		v.extend(gen::single_edits(s, if thorough { 200 } else { 24 }));
 	}
